@@ -129,7 +129,14 @@ func genArMember(t *rapid.T, label string) ArMember {
 		// or inside, a tab at the end, a '/' inside are part of the name
 		b := []byte(m.Name)
 		mid := (len(b) - 1) / 2 // never the last byte: a blank or '/' there is padding / the terminator
-		switch rapid.IntRange(0, 3).Draw(t, label+"odd") {
+		switch rapid.IntRange(0, 6).Draw(t, label+"odd") {
+		case 4, 5, 6:
+			// names are bytes: one that ends in (or consists of) characters of two, three or four
+			// bytes, padded or filling the column
+			tail := rapid.SampledFrom([]string{"é", "ü", "€", "語", "😀", "\u00a0", "\u0085", "\u3000"}).Draw(t, label+"mb")
+			if len(tail) <= len(b) {
+				b = append(b[:len(b)-len(tail)], tail...)
+			}
 		case 0:
 			b[0] = ' '
 		case 1:
